@@ -1,6 +1,9 @@
 import Model
 import Proofs.SchedInv
 import Proofs.Fuel
+import Proofs.Horizon
+import Proofs.Ordered
+import Proofs.FrameTeamBack
 /-!
 C11 — scheduling is total.
 
@@ -113,5 +116,35 @@ theorem alap_marking_fuel_ample (e : Env) (hb : DepsBounded e) (a : Nat) (ha : a
     (hp : processed.contains a = true) (preds : List Nat) (hpl : preds.length ≤ (e.taskD a).deps.length) :
     alapMeasure e preds processed < e.tasks.size * e.tasks.size + e.tasks.size + 1 :=
   markAlap_fuel_ample e hb a ha processed hp preds hpl
+
+/-! ### scheduled ⇒ ordered dates inside the scheduling horizon -/
+
+/-- **nothing is booked outside the scheduling horizon** (`Proofs/Horizon`, by the induction principle over reachable states):
+    after scheduling ANY well-formed project every ledger entry lies at a slot `0 ≤ i ≤ upper` -/
+theorem bookings_inside_horizon (e : Env) (wf : WF e) (r : Nat) (i : Int)
+    (h : ((runScenario e).led.get r i).usage ≠ []) : 0 ≤ i ∧ i ≤ e.upper :=
+  runScenario_inHorizon e wf r i h
+
+/-- **a scheduled task has start ≤ end inside the scheduling horizon**: after scheduling ANY well-formed project, every effort
+    task with a single selected resource that is reported as scheduled has a reported start and a reported end with
+    `project start ≤ start ≤ end ≤ end of the horizon` (`time (upper + 1)`) -/
+theorem scheduled_dates_inside_horizon (e : Env) (wf : WF e) (t r : Nat) (hel : Elig e t r)
+    (hs : ((runScenario e).tst t).scheduled = true) :
+    ∃ s v, ((runScenario e).tst t).start = some s ∧ ((runScenario e).tst t).stop = some v ∧
+      e.time 0 ≤ s ∧ s ≤ v ∧ v ≤ e.time (e.upper + 1) := by
+  have hd := runScenario_scheduled_done e t ⟨hel.leaf, hel.effort, hel.nomile⟩ hs
+  obtain ⟨s, v, h1, h2, h3, h4⟩ := Framed.inside wf (runScenario_inHorizon e wf) (runScenario_framed_all e wf t r hel hd)
+  obtain ⟨s', v', h1', h2', hle⟩ := (runScenario_ordered e wf).1 t r hel hd
+  rw [h1] at h1'; rw [h2] at h2'
+  cases h1'; cases h2'
+  exact ⟨s, v, h1, h2, h3, hle, h4⟩
+
+/-- the same bounds for every member of a team of one common efficiency (both modes) -/
+theorem team_dates_inside_horizon (e : Env) (wf : WF e) (t : Nat) (sel : List Nat) (η : Rat) (hel : TeamElig e t sel η)
+    (r : Nat) (hr : r ∈ sel) (hs : ((runScenario e).tst t).scheduled = true) :
+    ∃ s v, ((runScenario e).tst t).start = some s ∧ ((runScenario e).tst t).stop = some v ∧
+      e.time 0 ≤ s ∧ v ≤ e.time (e.upper + 1) :=
+  Framed.inside wf (runScenario_inHorizon e wf)
+    (runScenario_framedT_all e wf t sel η r hel hr (runScenario_scheduled_done e t ⟨hel.leaf, hel.effort, hel.nomile⟩ hs))
 
 end SP.C11
